@@ -390,6 +390,17 @@ async fn protocol_handler(app: Rc<App>, msg: v5::ProtocolMessage) -> Result<v5::
             }
             other => other.ack(),
         }),
+        CtlPlan::AckDiag => Ok(match msg {
+            v5::ProtocolMessage::Subscribe(mut s) => {
+                for mut sub in &mut s {
+                    let q = sub.options().qos;
+                    sub.confirm(q);
+                }
+                s.ack_reason(ByteString::from_static("because")).ack_properties(|p| p.push((ByteString::from_static("k"), ByteString::from_static("v")))).ack()
+            }
+            v5::ProtocolMessage::Unsubscribe(u) => u.ack_reason(ByteString::from_static("because")).ack_properties(|p| p.push((ByteString::from_static("k"), ByteString::from_static("v")))).ack(),
+            other => other.ack(),
+        }),
         CtlPlan::Err => Err(AppErr { tag: "protocol-error", ack: None }),
         CtlPlan::Disconnect(code) => {
             let code = codec::DisconnectReasonCode::try_from(code).unwrap_or(codec::DisconnectReasonCode::UnspecifiedError);
@@ -777,7 +788,7 @@ async fn client_protocol_handler(app: Rc<App>, msg: client::ProtocolMessage) -> 
             guard.done = true;
             app.push(Ev::CtlExit { seq });
             match app.ctl_plan(seq) {
-                CtlPlan::Ack => Ok(other.ack()),
+                CtlPlan::Ack | CtlPlan::AckDiag => Ok(other.ack()),
                 CtlPlan::Err => Err(AppErr { tag: "protocol-error", ack: None }),
                 CtlPlan::Disconnect(code) => {
                     let code = codec::DisconnectReasonCode::try_from(code).unwrap_or(codec::DisconnectReasonCode::UnspecifiedError);
